@@ -37,18 +37,27 @@ def harnesses(tier, seed):
             hs.append(collect_harness("c07", "collect_x", "M", "slice", 2, 2, 1, owners, (1, 1)))
         for owners in ([0, 0], [1, 1]):
             hs.append(collect_harness("c07", "collect_x", "M", "slice", 2, 2, 2, owners, (1, 1)))
+        # iterator-backed sources under the schedule model (incl. "first worker empty, second has everything")
+        for ty in ("M", "MF"):
+            for owners in owner_tables(2, 2, 1):
+                hs.append(collect_harness("c07", "collect_x", ty, "sched", 2, 2, 1, owners, (1, 1)))
+            hs.append(collect_harness("c07", "collect_x", ty, "schedx", 3, 2, 1, [1, 0, 1], (1, 1, 1)))
         # three workers, two chunks: the last-spawned worker holds one of them
         hs.append(collect_harness("c07", "collect_x", "MF", "slice", 3, 3, 2, [2, 2, 0], (1, 1, 1), obs=1))
         hs.append(collect_harness("c07", "collect_x", "MF", "slice", 3, 3, 2, [0, 0, 2], (1, 0, 1), obs=1))
     else:
+        light, heavy = [], []
         for ty in ("M", "F", "MF", "FM", "FMF", "FL", "FLF"):
+            bucket = heavy if ty in ("FL", "FLF") else light
             for (n, t, c) in ((3, 2, 1), (3, 2, 2), (3, 3, 1), (2, 2, 2), (3, 3, 2)):
                 cvs = count_vectors(ty, n)
                 for owners in owner_tables(n, t, c):
                     for k in cvs:
-                        hs.append(collect_harness("c07", "collect_x", ty, "slice", n, t, c, owners, k))
+                        bucket.append(collect_harness("c07", "collect_x", ty, "slice", n, t, c, owners, k))
             for k in count_vectors(ty, 2):
-                hs.append(collect_harness("c07", "collect_x", ty, "slice", 2, 1, 1, None, k))
+                bucket.append(collect_harness("c07", "collect_x", ty, "slice", 2, 1, 1, None, k))
                 for owners in owner_tables(2, 2, 1):
-                    hs.append(collect_harness("c07", "collect_x", ty, "vec", 2, 2, 1, owners, k))
+                    for src in ("vec", "sched", "schedx"):
+                        bucket.append(collect_harness("c07", "collect_x", ty, src, 2, 2, 1, owners, k))
+        hs = cap(light, 500, seed) + cap(heavy, 40, seed)
     return hs
